@@ -498,6 +498,22 @@ class Tracker:
                                     self._note(d, site)
                                     if self._add(d, ("tup", (i_, st), False)):
                                         changed = True
+                    elif k == "agg" and rv.get("ak") == "adt" and rv.get("variant") in ("Some", "Ok") and len(rv.get("ops") or []) == 1 \
+                            and rv.get("adt") in ("core::option::Option", "core::result::Result"):
+                        # `Some(verdict)` / `Ok(verdict)`: the verdict travels as the payload of that variant (`x.map(|v| check(v))?`)
+                        o = rv["ops"][0]
+                        l = op_local(o)
+                        if l is not None and l not in self._mixed and not (o[0] in ("cp", "mv") and len(o[1]) != 1):
+                            for st in list(self.states.get(l, ())):
+                                n = None
+                                if st[0] == "bool":
+                                    n = ("val", (rv["variant"], "false" if st[2] else "true"), False)
+                                elif st[0] == "val" and len(st[1]) <= 2:
+                                    n = ("val", (rv["variant"],) + tuple(st[1]), st[2])
+                                if n:
+                                    self._note(d, site)
+                                    if self._add(d, n):
+                                        changed = True
                     elif k == "un" and rv["op"] == "Not":
                         l = op_local(rv["a"])
                         if l in self._mixed:
